@@ -262,7 +262,14 @@ class Ctrl(Harness):
             for hosts, multi, K in [("2x1", [0, 0, 0], 4), ("1x2", [0, 0, 0], 3), ("2x2", [0, 0, 0], 3), ("2x1g", [0, 0, 0], 2), ("1x1g", [0, 0, 0], 1), ("1x1", [0, 0, 0], 2),
                                     ("2x1", [1, 0, 0], 3)]:
                 for f01 in range(len(pair_options(2 if multi[0] else 1))):
-                    out.append({"n": 3, "multi": multi, "hosts": hosts, "K": K, "fixed": {"0-1": f01}})
+                    base = {"n": 3, "multi": multi, "hosts": hosts, "K": K, "fixed": {"0-1": f01}}
+                    if hosts == "2x1g":
+                        # the largest trees of the quick tier (gpu flags multiply the jobs): case-split on the leading picks
+                        from vf.engine_xh import split_prefixes
+
+                        out += [{**base, "_prefix": p} for p in split_prefixes(self.body, base, 4)]
+                    else:
+                        out.append(base)
         out += family_shards(tier)
         if tier == "thorough":
             K = 8
